@@ -868,6 +868,7 @@ def run_call(fixture, handle, method, variant, seed, keep=False):
                        {q for q in before.structure() if before.structure()[q] != after.structure().get(q)})
         lazy_paths = [p for p, r in before.rows.items() if r[0] == "lazy"]
         changed = [p for p in set(bs_) | set(as_) if bs_.get(p) != as_.get(p)]
+        obs["still_locked"] = sorted(fmt_path(p) for p, v in after.locks().items() if v is True)
         obs["rebound_under_lazy"] = bool(changed) and all(any(p[:len(lp)] == lp and len(p) > len(lp) for lp in lazy_paths) for p in changed)
         obs.update(status="called", struct_diff=sdiff, key_diff=kdiff, unlocked=ldiff, ptr_diff=pdiff,
                    meta=meta, is_root_handle=(handle in roots) or handle in meta.get("unlock_roots", []), nodes=len(before.locks()),
@@ -915,9 +916,11 @@ def _judge(obs):
             out.append(("locked_frozen:unlocked-by-call", unl, dict(sig_base, effect="unlocked")))
         return out
     if m in UNLOCKERS and obs["is_root_handle"] and not meta.get("coroots"):
-        # unlocking the root is the documented way out; structure must still be intact
+        # unlocking the root is the documented way out; structure must still be intact, and the whole tree is writable again
         if struct:
             out.append(("locked_frozen:structure", struct, dict(sig_base, effect="structure")))
+        if obs["outcome"] == "ok" and obs.get("still_locked"):
+            out.append(("unlock_root_frees:still-locked", obs["still_locked"], dict(sig_base, effect="still-locked")))
         return out
     if struct:
         effect = "rebound" if all(d.startswith("rebound") for d in struct) else "keys"
